@@ -4,7 +4,7 @@ from vlib.runner import Case
 
 PID = "C09"
 PROPS = ["Props/C09.v"]
-GEN = []
+GEN = ['LexConst.v']
 MODEL_IS_SPEC = False
 RULE = ("string literal bodies built from items: raw characters of every class (ASCII, DEL, Latin-1, U+2028, BMP boundaries D7FF/E000/FFFF, non-BMP, the other quote), "
         "each two-character escape, the escaped own quote, \\uXXXX in lower/upper/mixed hex case for sampled and boundary code points incl. U+0000-U+001F, surrogate pairs at all four "
